@@ -26,12 +26,17 @@ import (
 
 // relocation state of a run
 type vdrReloc struct {
-	LinkRel string // the sub-pipeline directory, relative to the pipestance directory
+	// what is judged as outside the pipestance: the relocated directory itself, or — when a
+	// directory below a stage fork was relocated — the whole fork (VDR refuses the fork)
+	ScopeRel string
+	LinkRel  string // the relocated directory, relative to the pipestance directory
 	Target  string // where its content lives now
 	watched []string
 	// the tree below the link (names as below the pipestance directory) right
 	// after the restart and right after the final VDRKill
 	treeAtRestart, treeAtKill map[string]vdrEnt
+	// fork directories (relative) that had a kill report when mrp was restarted
+	reported map[string]bool
 }
 
 // relocTree lists what lies below the relocated directory, named as mrp names it.
@@ -65,7 +70,7 @@ func (v *vdrRun) relocReplay() {
 			continue
 		}
 		dir := v.rel(f.Path)
-		hadReport := false
+		hadReport := v.reloc.reported[dir]
 		for _, n := range []string{"_vdrkill", "_vdrkill.partial"} {
 			if _, ok := v.reloc.treeAtRestart[dir+"/"+n]; ok {
 				hadReport = true
@@ -107,7 +112,44 @@ func (v *vdrRun) relocReplay() {
 }
 
 func (v *vdrRun) underReloc(rel string) bool {
-	return v.reloc != nil && (rel == v.reloc.LinkRel || strings.HasPrefix(rel, v.reloc.LinkRel+"/"))
+	return v.reloc != nil && (rel == v.reloc.ScopeRel || strings.HasPrefix(rel, v.reloc.ScopeRel+"/"))
+}
+
+// stageDirCandidates: directories at or below the stage forks — the fork
+// directory (level "fork"), a job's real directory chnkN-u… / split-u… /
+// join-u… ("job") or its files directory ("files") — that hold stage files.
+func (v *vdrRun) stageDirCandidates(level string) []string {
+	set := map[string]bool{}
+	filepath.Walk(v.psdir, func(p string, info os.FileInfo, err error) error {
+		if err != nil || !info.Mode().IsRegular() {
+			return nil
+		}
+		rel, e := filepath.Rel(v.psdir, p)
+		if e != nil {
+			return nil
+		}
+		jd, region, ok := stageRegion(rel)
+		if !ok || region != "files" || !strings.Contains(path.Base(jd), "-u") {
+			return nil
+		}
+		switch level {
+		case "fork":
+			set[path.Dir(jd)] = true
+		case "job":
+			set[jd] = true
+		case "files":
+			set[jd+"/files"] = true
+		}
+		return nil
+	})
+	var out []string
+	for d := range set {
+		if st, err := os.Lstat(path.Join(v.psdir, d)); err == nil && st.IsDir() {
+			out = append(out, d)
+		}
+	}
+	sort.Strings(out)
+	return out
 }
 
 // subPipelineDirs: existing directories of sub-pipeline calls (any depth).
@@ -133,6 +175,9 @@ func (v *vdrRun) subPipelineDirs() []string {
 
 // relocCandidates: sub-pipeline directories below which stages have written files.
 func (v *vdrRun) relocCandidates() []string {
+	if l := v.spec.RelocLevel; l != "" {
+		return v.stageDirCandidates(l)
+	}
 	var out []string
 	for _, rel := range v.subPipelineDirs() {
 		n := 0
@@ -179,9 +224,19 @@ func (v *vdrRun) crashRelocateRestart() error {
 		if err := os.Symlink(dst, src); err != nil {
 			os.Rename(dst, src)
 		} else {
-			v.reloc = &vdrReloc{LinkRel: rel, Target: dst}
+			v.reloc = &vdrReloc{LinkRel: rel, ScopeRel: rel, Target: dst}
+			switch v.spec.RelocLevel {
+			case "job":
+				v.reloc.ScopeRel = path.Dir(rel)
+			case "files":
+				v.reloc.ScopeRel = path.Dir(path.Dir(rel))
+			}
 			r.log("relocate", "", rel+" -> "+dst)
-			v.hist("sub-pipeline-directory-relocated")
+			if v.spec.RelocLevel == "" {
+				v.hist("sub-pipeline-directory-relocated")
+			} else {
+				v.hist("stage-directory-relocated-" + v.spec.RelocLevel)
+			}
 			// what is below the link is not part of the pipestance tree any more
 			for e := range v.ever {
 				if v.underReloc(e) {
@@ -196,6 +251,13 @@ func (v *vdrRun) crashRelocateRestart() error {
 	if v.reloc != nil {
 		v.watchRelocated()
 		v.reloc.treeAtRestart = v.relocTree()
+		v.reloc.reported = map[string]bool{}
+		filepath.Walk(path.Join(v.psdir, v.reloc.ScopeRel), func(p string, info os.FileInfo, err error) error {
+			if err == nil && (info.Name() == "_vdrkill" || info.Name() == "_vdrkill.partial") {
+				v.reloc.reported[v.rel(path.Dir(p))] = true
+			}
+			return nil
+		})
 	}
 	return nil
 }
@@ -209,7 +271,7 @@ func (v *vdrRun) watchRelocated() {
 			return nil
 		}
 		rel, _ := filepath.Rel(v.reloc.Target, p)
-		if _, _, ok := stageRegion("x/" + rel); !ok {
+		if _, _, ok := stageRegion(v.reloc.LinkRel + "/" + rel); !ok {
 			return nil
 		}
 		if b, err := os.ReadFile(p); err == nil {
@@ -237,3 +299,63 @@ func (v *vdrRun) unwatchRelocated() {
 }
 
 var _ = fmt.Sprint
+
+// guardChecks: the model's guard (refusedBy over the links found on the chain of
+// directories the code lstats) against the verdict of the real
+// Fork.vdrAcrossSymlink, for the forks of a run (all of them after a relocation).
+func (v *vdrRun) guardChecks() {
+	if v.r == nil || v.r.ps == nil {
+		return
+	}
+	n := 0
+	for _, g := range v.r.ps.VerifVdrGuards() {
+		if v.reloc == nil && n >= 4 {
+			break
+		}
+		var ents []string
+		seen := map[string]bool{}
+		for _, p := range g.Chain {
+			if seen[p] {
+				continue
+			}
+			seen[p] = true
+			st, err := os.Lstat(p)
+			if err != nil {
+				continue
+			}
+			link := "~"
+			if st.Mode()&os.ModeSymlink != 0 {
+				if t, err := os.Readlink(p); err == nil && t != "" {
+					link = hx(t)
+				}
+			}
+			ents = append(ents, hx(p)+":"+link)
+		}
+		fs := "."
+		if len(ents) > 0 {
+			fs = strings.Join(ents, ";")
+		}
+		chain := make([]string, 0, len(seen))
+		for p := range seen {
+			chain = append(chain, hx(p))
+		}
+		sort.Strings(chain)
+		cl := "."
+		if len(chain) > 0 {
+			cl = strings.Join(chain, ",")
+		}
+		v.res.Checks = append(v.res.Checks, VdrModelCheck{Name: "guard", Req: []string{"C04.refused", fs, cl},
+			Expect: fmt.Sprint(g.Refused),
+			What:   "the symlink guard of fork " + g.Fqname + " (Fork.vdrAcrossSymlink) against the model's refusedBy over the directories it lstats"})
+		n++
+		if g.Refused {
+			v.hist("guard-refuses-fork")
+		} else {
+			v.hist("guard-admits-fork")
+		}
+		if g.Refused != v.underReloc(v.rel(g.Path)) {
+			v.violate("C14", "correspondence", "C14:model:guard-scope",
+				fmt.Sprintf("fork %s: the guard says refused=%v but the harness judges the fork as %v (relocated: %v)", g.Fqname, g.Refused, v.underReloc(v.rel(g.Path)), v.reloc != nil), nil)
+		}
+	}
+}
